@@ -116,3 +116,14 @@ register("C17", "simlab.profiles.c17", "exploration", budgets={"quick": dict(run
                "non-trivial = bond dimension > 1; distinct = distinct (operation, criterion, jw, forced, bonds, sweeps)"),
          assumptions=COMMON_ASSUMPTIONS + ["the fermionic reference uses the harness's own Jordan-Wigner operators (independent of h_qc.py)"],
          seams=_CHAIN_SEAMS + ["SimSwap (calc_vn_entropy as seen from mps.mp: scheduler-forced swap decisions with OFS-S)", "SimLAPACK"], design_ref="4/C17")
+
+_TREE_RULE = ("each run = one seeded session over a population of TTNS/TTNO objects living on several tree topologies built over the SAME "
+              "basis-set objects (random parent vectors, multi-basis nodes, dummy nodes, permuted child order, library constructors); every step is "
+              "checked against a dense shadow in the reference site order obtained by the harness's own recursive contraction of the node tensors, "
+              "all bystanders are re-checked after every step.  A step is non-trivial if it acts on an object with some bond dimension > 1; "
+              "distinct = distinct (operation, sub-kind, object kind, tree shape, bond dimensions, dtype) tuples")
+for _pid in ("C02", "C11", "C12"):
+    register(_pid, f"simlab.profiles.{_pid.lower()}", "exploration",
+             budgets={"quick": dict(runs=1600 if _pid == "C12" else 2400, timeout=300), "thorough": dict(runs=40000, timeout=600)},
+             rule=_TREE_RULE, assumptions=COMMON_ASSUMPTIONS, seams=_CHAIN_SEAMS + (["ODE budget seam (tn.time_evolution.solve_ivp)"] if _pid == "C12" else []),
+             design_ref="4/" + _pid)
